@@ -62,6 +62,14 @@ CLAIMED["C19"] = ("exploration", "3 (C19)",
    "Generated GraphQL multipart requests (single / batched, 1-4 files of 0 B..64 KiB, names with spaces, quotes, unicode; files at top level, in lists with holes, in nested input objects, in lists of input objects, one file at two paths, one variables object used by two root fields; truncated upload streams) travel through the real parse -> plan -> execute -> multipart re-encoding path to simulated services that re-parse the request they get. Oracle: data equals the reference (payloads echo name, size and checksum of every file received); per receiving service the forwarded map sends the client's paths to parts with the same file name and bytes and the JSON variables are null exactly there; services whose sub-request uses no file variable get plain JSON; a truncated upload is a 422 and reaches no service. Thorough tier: race detector.",
    FED_NOTE, "deterministic simulation: round-trip oracle on the re-parsed multipart wire message + differential answer check")
 
+SUB_NOTE = "Sampling of (histories, schedule) tuples at the granularity of the hook yield points, connection writes and segment deliveries. Trusted: testing/synctest quiescence and fake clock, the simulated connection (Write = one atomic append, as net.Conn guarantees), the reference executor."
+CLAIMED["C17"] = ("exploration", "3 (C17)",
+   "Simulated websocket clients (1-2 connections, 1-3 subscriptions each, incl. identical subscriptions and the caching planner) talk to the real subscription handler, which runs the real Subscribe against simulated upstream graphql-ws nodes; each upstream follows a script of events, error frames, keep-alives and complete. The scheduler interleaves upstream emissions, the per-event stitch calls on the HTTP leg, every connection write and delivery (split deliveries), and clock ticks that fire heartbeats. Oracle: every received byte parses into protocol frames; per subscription id the data frames equal, in order and count, the reference's answer for every emitted event (fully stitched, helper fields removed, errors empty) and every upstream error frame arrives as errors under that id.",
+   SUB_NOTE, "deterministic simulation: seeded scheduler over real subscription code between simulated websocket peers, ordered-event-list oracle from the single-server reference")
+CLAIMED["C18"] = ("exploration", "3 (C18)",
+   "Seeded search over the teardown interleavings of the real handler / Listen / Close / upstream reader / closer / heartbeat goroutines (hook H4 and H3 yield points, every connection write and delivery, clock ticks), with policies that hold open or rush one narrow window per run, under client histories (init twice, start, duplicate start, start without payload, stop, stop twice, stop unknown, terminate, close frame, close without close frame, reset, non-JSON, binary, unknown type) and upstream histories (ack, never-ack, events, error, bad JSON, unknown type, complete, connection_error, disconnect, dial refused, reset during handshake). Oracle: the process survives (parent sees panics / fatal errors), no handler panic, every handler returns and every upstream connection is closed within 60 simulated seconds after the clients are gone, every received byte parses into complete protocol frames, no hook-announced goroutine stays alive. Thorough tier: race detector.",
+   SUB_NOTE + " The model-checking half of the quantifier is not attempted.", "deterministic simulation with fault injection: seeded schedule search over teardown yield points under client/upstream fault histories, liveness and leak oracles, crash capture")
+
 PENDING = {}  # id -> reason while a check is not built yet
 
 def main():
